@@ -138,6 +138,14 @@ func checkBase64Guards(p *Program, r *Result, fns []*ssa.Function) {
 					a, ok = a1, true
 				}
 			}
+			if !ok && strings.HasSuffix(name, ".DecodeString") {
+				// the rejection made after decoding: with n bytes decoded, exactly EncodedLen(n)
+				// characters were used, so len(s) == EncodedLen(n) says that nothing was skipped;
+				// every return that hands the decoded bytes on stands under that equality
+				if a2, ok2 := canonicalLengthAfterDecode(tb, fn, c, srcKey); ok2 {
+					a, ok = a2, true
+				}
+			}
 			if ok {
 				r.OK(fn.String(), key, r.pos(c), "", guardWitness(p, a))
 			} else {
@@ -145,6 +153,51 @@ func checkBase64Guards(p *Program, r *Result, fns []*ssa.Function) {
 			}
 		}
 	}
+}
+
+// canonicalLengthAfterDecode: c is enc.DecodeString(src); every return of fn that is not an error
+// return stands under len(src) == enc.EncodedLen(len(result of c)), with the same encoding.
+func canonicalLengthAfterDecode(tb *TB, fn *ssa.Function, c ssa.CallInstruction, srcKey string) (Atom, bool) {
+	call, isCall := c.(*ssa.Call)
+	if !isCall {
+		return Atom{}, false
+	}
+	ct := tb.Term(call)
+	if ct == nil || len(ct.Args) != 2 {
+		return Atom{}, false
+	}
+	want := "(*encoding/base64.Encoding).EncodedLen(" + ct.Args[0].String() + ", len(" + ct.String() + ".0))"
+	var wit Atom
+	n := 0
+	for _, ret := range returnsOf(fn) {
+		if len(ret.Results) != 2 {
+			return Atom{}, false
+		}
+		if !isNilConst(ret.Results[1]) {
+			if isNilConst(ret.Results[0]) {
+				continue
+			}
+			return Atom{}, false // the decoded bytes returned together with an error value
+		}
+		a, ok := findFact(tb.FactsAt(ret.Block()), func(a Atom) bool {
+			if a.Kind != "cmp" || a.Op != "==" || a.X == nil || a.Y == nil {
+				return false
+			}
+			x, y := a.X.String(), a.Y.String()
+			return (x == "len("+srcKeyString(tb, c)+")" && y == want) || (y == "len("+srcKeyString(tb, c)+")" && x == want)
+		})
+		if !ok {
+			return Atom{}, false
+		}
+		wit = a
+		n++
+	}
+	_ = srcKey
+	return wit, n > 0
+}
+
+func srcKeyString(tb *TB, c ssa.CallInstruction) string {
+	return tb.Term(c.Common().Args[1]).String()
 }
 
 // rejectsChar: a fact that the value with the given key does not contain the character c.
@@ -395,24 +448,102 @@ func checkCanonicalParse(p *Program, r *Result, parse, rs, ivs, dec *ssa.Functio
 // is the bufio.Reader itself iff that is the input, otherwise the buffered bytes followed by the input.
 func checkPayloadHandBack(p *Program, r *Result, parse *ssa.Function, succ []*ssa.Return, ptb *TB) {
 	nA, nB := 0, 0
+	type pcase struct {
+		pay   string
+		facts []Atom
+	}
 	for _, ret := range succ {
-		facts := ptb.FactsAt(ret.Block())
-		pay := short(ptb.Term(resultsOf(ret)[1]).String())
-		_, same := hasFactShort(facts, "bufio.NewReader(P1) == P1")
-		_, diff := hasFactShort(facts, "bufio.NewReader(P1) != P1")
-		switch {
-		case same && pay == "bufio.NewReader(P1)":
-			nA++
-			r.OK(parse.String(), "payload:same-reader", r.pos(ret), "input already is the bufio.Reader: returned as is (no duplication of buffered bytes)")
-		case diff && pay == specRecipe(r, "format.Parse.payload"):
-			nB++
-			_, okErr := hasFactShort(facts, "(*bufio.Reader).Peek(bufio.NewReader(P1), (*bufio.Reader).Buffered(bufio.NewReader(P1))).1 == nil")
-			r.Check(okErr, parse.String(), "payload:multireader", r.pos(ret), pay, "the Peek error is not checked")
-		default:
-			r.Bad(parse.String(), "payload#"+itoa(retIndex(parse, ret)), r.pos(ret), "payload reader is "+pay+" under facts ["+short(factStrings(facts))+"]: buffered bytes would be lost or duplicated")
+		retFacts := ptb.FactsAt(ret.Block())
+		// the payload may be the merged result of a helper spliced into Parse: one case per
+		// incoming edge, under the facts of that edge (and those of the return)
+		var cases []pcase
+		var expand func(v ssa.Value, facts []Atom, d int)
+		expand = func(v ssa.Value, facts []Atom, d int) {
+			if ph, ok := v.(*ssa.Phi); ok && d < 3 {
+				for k, e := range ph.Edges {
+					if isNilConst(e) && errorEdgeRefused(ptb, ph, k, retFacts) {
+						continue // the helper's (nil, err) exit: the caller returns the error
+					}
+					expand(e, append(append([]Atom(nil), retFacts...), phiEdgeFacts(ptb, ph, k)...), d+1)
+				}
+				return
+			}
+			cases = append(cases, pcase{short(ptb.Term(v).String()), facts})
+		}
+		expand(resultsOf(ret)[1], retFacts, 0)
+		for _, c := range cases {
+			facts, pay := c.facts, c.pay
+			_, same := hasFactShort(facts, "bufio.NewReader(P1) == P1")
+			_, diff := hasFactShort(facts, "bufio.NewReader(P1) != P1")
+			_, none := hasFactShort(facts, "(*bufio.Reader).Buffered(bufio.NewReader(P1)) == 0")
+			switch {
+			case same && pay == "bufio.NewReader(P1)":
+				nA++
+				r.OK(parse.String(), "payload:same-reader", r.pos(ret), "input already is the bufio.Reader: returned as is (no duplication of buffered bytes)")
+			case diff && pay == specRecipe(r, "format.Parse.payload"):
+				nB++
+				_, okErr := hasFactShort(facts, "(*bufio.Reader).Peek(bufio.NewReader(P1), (*bufio.Reader).Buffered(bufio.NewReader(P1))).1 == nil")
+				if !okErr {
+					// the error tested after the merge of a spliced helper's results
+					_, okErr = findFact(facts, func(a Atom) bool {
+						return a.Kind == "cmp" && a.Op == "==" && a.Y != nil && a.Y.Op == "Nil" && a.X != nil && a.X.Op == "Phi" &&
+							strings.Contains(short(a.X.String()), "(*bufio.Reader).Peek(bufio.NewReader(P1), (*bufio.Reader).Buffered(bufio.NewReader(P1))).1")
+					})
+				}
+				r.Check(okErr, parse.String(), "payload:multireader", r.pos(ret), pay, "the Peek error is not checked")
+			case diff && none && pay == "P1":
+				r.OK(parse.String(), "payload:nothing-buffered", r.pos(ret), "nothing was read ahead (Buffered() == 0): the input itself is the payload")
+			default:
+				r.Bad(parse.String(), "payload#"+itoa(retIndex(parse, ret)), r.pos(ret), "payload reader is "+pay+" under facts ["+short(factStrings(facts))+"]: buffered bytes would be lost or duplicated")
+			}
 		}
 	}
 	if nA != 1 || nB != 1 {
 		r.Bad(parse.String(), "payload:cases", "", "expected one return for rr == input and one for the MultiReader hand-back")
 	}
+}
+
+// errorEdgeRefused: on edge k of the merge ph the accompanying error (another merge of the same
+// block) is a non-nil value, and the facts say that merged error was found nil: the edge cannot
+// have been the one taken.
+func errorEdgeRefused(tb *TB, ph *ssa.Phi, k int, facts []Atom) bool {
+	for _, in := range ph.Block().Instrs {
+		e, ok := in.(*ssa.Phi)
+		if !ok || e == ph || !isErrorType(e.Type()) || k >= len(e.Edges) {
+			continue
+		}
+		if isNilConst(e.Edges[k]) {
+			continue
+		}
+		if !tb.p.definitelyNonNil(e.Edges[k], 0) {
+			vs := tb.Term(e.Edges[k]).String()
+			if _, nonNil := findFact(phiEdgeFacts(tb, ph, k), func(a Atom) bool {
+				return a.Kind == "cmp" && a.Op == "!=" && a.Y != nil && a.Y.Op == "Nil" && a.X != nil && a.X.String() == vs
+			}); !nonNil {
+				continue
+			}
+		}
+		es := tb.Term(e).String()
+		if _, found := findFact(facts, func(a Atom) bool {
+			return a.Kind == "cmp" && a.Op == "==" && a.Y != nil && a.Y.Op == "Nil" && a.X != nil && a.X.String() == es
+		}); found {
+			return true
+		}
+	}
+	return false
+}
+
+// phiEdgeFacts: the facts in force on the k-th incoming edge of the merge ph.
+func phiEdgeFacts(tb *TB, ph *ssa.Phi, k int) []Atom {
+	b := ph.Block()
+	if k >= len(b.Preds) {
+		return nil
+	}
+	pred := b.Preds[k]
+	for i, su := range pred.Succs {
+		if su == b {
+			return tb.FactsOnEdge(pred, i)
+		}
+	}
+	return nil
 }
